@@ -406,6 +406,21 @@ class Ctx:
             self.spec_bad.append({'tag': tag, 'input': jsonable(inp), 'detail': jsonable(detail)})
         return False
 
+    def guard(self, fn, *args, **kw):
+        """run one case; an exception escaping from it (none occurs on the unchanged tree) is a
+        property failure with that case as the failing input, not an infrastructure problem"""
+        try:
+            return fn(*args, **kw)
+        except BadOp:
+            raise
+        except Exception as e:  # noqa
+            tb = traceback.format_exc().splitlines()
+            where = [l.strip() for l in tb if 'File' in l][-3:]
+            self.spec('%s.unexpected_exception/%s' % (self.prop, getattr(fn, '__name__', 'case')), False,
+                      {'case_function': getattr(fn, '__name__', '?'), 'args': [repr(a)[:200] for a in args[2:]]},
+                      {'raised': repr(e)[:300], 'where': where})
+            return None
+
     # -- finish
     def finish(self, audit_res, rule, assumptions=None, explanation=None):
         prop = self.prop
